@@ -26,10 +26,18 @@ def symbols():
                 else:
                     out.append(((S, M1, f), (M1, M2, f + 1), (M2, D, l)))
                     out.append(((S, M2, f), (M2, M1, l - 1), (M1, D, l)))
+    # far-apart instants: durations around 2*10**5 that differ by one (a relative tolerance would call them equal)
+    B = 200000
+    out.append(((S, M1, 0), (M1, D, B)))
+    out.append(((S, M2, 0), (M2, D, B + 1)))
+    out.append(((S, M1, 1), (M1, D, B + 1)))
+    out.append(((S, M1, 0), (M1, M2, 7), (M2, D, B)))
+    out.append(((S, D, B),))
     return out
 
 
 SYM = symbols()
+_PREV = [None]
 
 
 def decode(i, maxlen):
@@ -89,6 +97,13 @@ def eval_input(i, data):
             viols.append(Violation(PROP, 'call', {'kind': 'raises', 'exc': type(ex).__name__, 'form': form}, {'index': i, 'maxlen': maxlen},
                                    {'paths': repr(paths), 'raised': repr(ex)[:200]}))
             continue
+        # a result must stay what it was after the next call (no shared result object)
+        if _PREV[0] is not None:
+            ref, snap, desc = _PREV[0]
+            if ref is ann or repr(ref) != snap:
+                viols.append(Violation(PROP, 'aliasing', {'kind': 'earlier-result-changed-by-a-later-call', 'same_object': ref is ann},
+                                       {'index': i, 'maxlen': maxlen}, {'earlier call': desc, 'this call': repr(paths)[:200]}))
+        _PREV[0] = (ann, repr(ann), repr(paths)[:200])
         inputs = collections.Counter(tuple(map(tuple, p)) for p in paths)
         for crit, want in exp.items():
             got = ann.get(crit)
